@@ -2885,6 +2885,11 @@ func (s *ImmuStore) ExportTx(txID uint64, allowPrecommitted bool, skipIntegrityC
 			return nil, err
 		}
 
+		if e.vLen > s.maxValueLen {
+			// the length is not covered by any hash: a damaged one must not size a buffer
+			return nil, fmt.Errorf("%w: value length exceeds the maximum", ErrCorruptedData)
+		}
+
 		// val
 		// TODO: improve value reading implementation, get rid of _valBs
 		s._valBsMux.Lock()
@@ -3382,6 +3387,11 @@ func (s *ImmuStore) ReadValue(entry *TxEntry) ([]byte, error) {
 		// But current changes in ExportTx with truncated transactions are not providing the value length
 		// for truncated transactions, making it impossible to differentiate an empty value with a truncated one
 		return nil, nil
+	}
+
+	if entry.vLen > s.maxValueLen {
+		// the length is not covered by any hash: a damaged one must not size a buffer
+		return nil, fmt.Errorf("%w: value length exceeds the maximum", ErrCorruptedData)
 	}
 
 	b := make([]byte, entry.vLen)
